@@ -11,7 +11,7 @@ MANIFEST = {}
 
 
 def graph_property(work, args, *, pid, module, mcmodule, pkg, formulas, mc_cfgs, gen_cfgs, reset_op,
-                   level_note, design_ref, assumptions, recorder=None, extra_prop_invariants=()):
+                   level_note, design_ref, assumptions, recorder=None, extra_prop_invariants=(), never_ok=()):
     """Generic check for a property decided on a graph-replayed specification.
 
     formulas: dict(invariants=[...], properties=[...], p_properties=[...]) - the property's formulas in
@@ -42,6 +42,7 @@ def graph_property(work, args, *, pid, module, mcmodule, pkg, formulas, mc_cfgs,
     binary = vlib.build(work, pkg)
     # ---- 3. generation + replay
     all_traces, init_by_cfg, deviations = [], {}, 0
+    ok_by_op = {}
     for c in [c for c in gen_cfgs if tier in c["tiers"]]:
         cfg = work.path("gen-%s.cfg" % c["name"])
         vlib.write_cfg(cfg, init="Init", next_="Next", consts=c["consts"], overrides=c.get("overrides"), view="View",
@@ -75,13 +76,19 @@ def graph_property(work, args, *, pid, module, mcmodule, pkg, formulas, mc_cfgs,
             for tf in traces:
                 all_traces.append((tf, init, c, h))
             ev["gen_runs"].append(dict(cfg=c["name"], distinct=r["distinct"], generated=r["generated"]))
-            # vacuity: every operation kind must have been accepted at least once on the real code
-            names = set(x.split(" ")[0] for x in tot["by_op"])
             for line in tot["by_op"]:
                 nm, okc = line.split(" ")[0], int(line.split("ok=")[1].split(" ")[0])
-                if okc == 0 and deviations == 0 and tier != "dev" and nm not in c.get("may_never_succeed", ()):
-                    raise Infra("vacuous: operation %s never succeeded on the real code in %s" % (nm, tag))
+                ok_by_op[nm] = ok_by_op.get(nm, 0) + okc
         os.remove(edges)
+    # vacuity: every operation kind must have been accepted at least once on the real code (over all configs of this run)
+    ev["accepted_by_operation"] = ok_by_op
+    never = set(never_ok)
+    for c in gen_cfgs:
+        if tier in c["tiers"]:
+            never |= set(c.get("may_never_succeed", ()))
+    for nm, okc in ok_by_op.items():
+        if okc == 0 and deviations == 0 and tier != "dev" and nm not in never:
+            raise Infra("vacuous: operation %s never succeeded on the real code in this run" % nm)
     # ---- 4. optional recorder (randomized driver beyond the model-checking bounds) + strict trace validation
     rec_info = None
     if recorder and tier in recorder["tiers"]:
